@@ -9,6 +9,7 @@
 #include <stdint.h>
 #include <stddef.h>
 #include <string.h>
+#include "core/once.h"
 
 /* ARM hardware CRC32 (when available) */
 #if defined(__aarch64__) || defined(__arm__) || defined(_M_ARM64) || defined(_M_ARM)
@@ -38,10 +39,10 @@ static int check_arm_crc32(void) {
 
 /* 8 tables of 256 entries for slicing-by-8 */
 static uint32_t crc32_tables[8][256];
-static volatile int crc32_tables_initialized = 0;
+static carquet_once_t crc32_tables_once = CARQUET_ONCE_INIT;
 
 static void crc32_init_tables(void) {
-    if (crc32_tables_initialized) return;
+    if (!carquet_once_begin(&crc32_tables_once)) return;
 
     /* Generate base table (standard reflected CRC32) */
     for (int i = 0; i < 256; i++) {
@@ -62,11 +63,11 @@ static void crc32_init_tables(void) {
         }
     }
 
-    crc32_tables_initialized = 1;
+    carquet_once_end(&crc32_tables_once);
 }
 
 static uint32_t crc32_slicing_by_8(uint32_t crc, const uint8_t* data, size_t length) {
-    if (!crc32_tables_initialized) crc32_init_tables();
+    if (!carquet_once_done(&crc32_tables_once)) crc32_init_tables();
 
     crc = ~crc;
 
